@@ -405,7 +405,21 @@ func (r *Run) callBuiltin(g *Goroutine, caller *frame, fn *ssa.Builtin, args []V
 				*x = *newMap()
 			}
 		case Slice:
-			r.abort("clear(slice) unsupported")
+			// every element becomes the zero value of the element type
+			var at types.Type
+			if sig, ok := fn.Type().(*types.Signature); ok && sig.Params().Len() > 0 {
+				at = sig.Params().At(0).Type()
+			}
+			if at == nil {
+				r.abort("clear(slice): argument type unknown")
+			}
+			if st, ok := at.Underlying().(*types.Slice); ok {
+				for i := 0; i < x.Len; i++ {
+					storeInto(&x.Data[i], zero(st.Elem()))
+				}
+			} else {
+				r.abort("clear(slice): element type unknown")
+			}
 		}
 		return nil
 	case "ssa:wrapnilchk":
